@@ -24,7 +24,8 @@ PY = "/venv/bin/python"
 TRUSTED_BASE = [
     "Coq 8.16.1 kernel (coqc, full .vo builds); vm_compute used in Examples/refutation witnesses and the in-Coq cross-check; no native_compute",
     "Axioms: none declared; every property theorem must print 'Closed under the global context' under Print Assumptions (parsed on every run)",
-    "Extraction: ExtrOcamlBasic + ExtrOcamlString only (no Extract Constant/Inductive of our own; nat/positive/Z stay inductive); runner/main.ml does parsing/printing only; a sample of every correspondence batch is re-evaluated inside Coq with vm_compute",
+    "Extraction: ExtrOcamlBasic + ExtrOcamlString (which exports ExtrOcamlChar) only, no directive of our own; directives relied upon: Extract Inductive bool, option, unit, list, prod, sumbool, sumor, Extract Inlined Constant andb, orb (ExtrOcamlBasic); Extract Inductive string => char list (ExtrOcamlString); Extract Inductive ascii => char, byte => char, Extract Constant zero, one, shift, Ascii.compare, Extract Inlined Constant ascii_dec, Ascii.eqb, Byte.eqb, Byte.byte_eq_dec, Ascii.ascii_of_byte, Ascii.byte_of_ascii (ExtrOcamlChar); nat/positive/Z stay extracted inductives; runner/main.ml does parsing/printing only; a sample of every correspondence batch is re-evaluated inside Coq with vm_compute, so a wrong directive shows as a runner/kernel disagreement",
+    "Violation search (never a proof): property monitors over the simulated sessions, the worker-level race search (main thread preemptible at every lock release and before unprotected Event operations), real pytest runs",
     "Correspondence harness (Python): drives the real xdist classes from /repo's working tree; fakes for execnet channels/gateways, cooperative thread scheduler, stubbed test execution; generator reach bounds what it can show",
     "Modelled, not verified: execnet per-channel FIFO and end-marker ordering, Channel.send failure semantics, RLock/Event semantics, dict insertion order, pytest report (de)serialisation and exit status, os.walk/stat/pathlib, fnmatch.translate, importlib reachability (oracle)",
 ]
